@@ -512,6 +512,11 @@ def histories(ctx: Ctx, n: int):
 
 def run(ctx: Ctx) -> None:
     thorough = ctx.tier == "thorough"
+    # class-level tables are shared state too: every row of the pick table serves the second call of a process as it serves the first
+    from .common import FreshPool
+    from . import picktable
+    with FreshPool() as fresh:
+        npick = picktable.run(ctx, "C20", fresh)
     rm = ctx.tlc("Shared", timeout=900, workers=4, coverage=True)
     ctx.vacuity(rm, allow_zero=())
     ctx.sensitivity("Shared", "Shared_dev_Rebind")
@@ -551,7 +556,7 @@ def run(ctx: Ctx) -> None:
     seqs, cnt, bad = histories(ctx, 400 if thorough else 60)
     for prefix, name, p in bad[:5]:
         ctx.violation(f"shared:history {name} after {len(prefix) - 1} calls -> {p[:60]}", {"history": prefix, "problem": p})
-    ctx.evaluations = nsched + ncalls + cnt
+    ctx.evaluations = nsched + ncalls + cnt + npick
     ctx.traces = nsched + len(seqs)
     ctx.exhaustive = False
     ctx.notes.update(op_pairs=len(pairs), schedules_run=nsched, stress_calls=ncalls, histories=len(seqs), history_calls=cnt, model_coverage=rm.coverage)
@@ -567,6 +572,9 @@ def run(ctx: Ctx) -> None:
 def replay(ctx: Ctx, rec: dict) -> None:
     from .common import _pool_init
     _pool_init()
+    if "pick_history" in rec:
+        from . import picktable
+        return picktable.replay(ctx, rec)
     if "ops" in rec:
         problems, s = run_schedule(rec["kind"], rec["ops"], [tuple(p) for p in rec["preempts"]], rec["first"])
         print("ops", rec["ops"], "preempts", rec["preempts"], "first", rec["first"], "-> problems now:", problems, "switches:", s.order)
